@@ -24,8 +24,8 @@ PROJ = {
 NO_SIZE = {"set_size": 0}
 
 PROFILES = {
-    "C01": gen.profile(hooks=0.35, w=dict(NO_SIZE, spawn=18, spawn2=14, gate=14, run=30)),
-    "C02": gen.profile(hooks=0.25, w=dict(NO_SIZE, cancel=12, cancel_group=8, cancel_all=4, flush=8)),
+    "C01": gen.profile(hooks=0.35, w=dict(NO_SIZE, spawn=18, spawn2=14, gate=14, run=30), early_resize=0.25),
+    "C02": gen.profile(hooks=0.25, w=dict(NO_SIZE, cancel=12, cancel_group=8, cancel_all=4, flush=8), early_resize=0.15),
     "C03": gen.profile(hooks=0.25, w=dict(NO_SIZE, cancel=12, cancel_group=6, flush=5), cbs="nppccx"),
     "C04": gen.profile(hooks=0.0, simple=0.4, multi=0.3, sizes=["1", "1", "2", "2", "3", "4", "inf"], set_sizes=[1, 2, 3, 4],
                        w=dict(set_size=2, spawn=22, spawn2=4, lock=7, gac=3, cancel=8, cancel_group=2, cancel_all=1)),
